@@ -16,6 +16,7 @@ passed / returned.  Tolerances: relative 1e-6 as stated plus a floor forced by f
 (ulp(360 deg) = 2e-10 arcsec) and, where a latitude is recovered from a sine or cosine, the conditioning of that
 inverse (error eps * tan(lat), at most sqrt(2 eps) = 0.004 arcsec at the pole).
 """
+import itertools
 import math
 
 import numpy as np
@@ -31,7 +32,9 @@ LEVEL_NOTE = 'decides the property on the lattice only, to the stated 1e-6 relat
 RULE = ('gcirc: one case = one ordered pair (base grid point, nominal separation, position angle) in one unit convention and one '
         'calling form; non-trivial when the two points differ. munu: one case = one (stripe, route, clause, lattice point or pair); '
         'non-trivial when the stripe inclination is not 0 (mod 180) so that the rotation is exercised. angles: one case = one direction '
-        'in one angle convention and one composition order; non-trivial away from phi = 0. Distinct = distinct lattice indices.')
+        'in one angle convention and one composition order; non-trivial away from phi = 0. history: one case = one sequence of 2-3 '
+        'consecutive calls on identical data with changing latitude / units keyword (same array object, equal copies, scalars); '
+        'non-trivial when the keyword changes. Distinct = distinct lattice indices / (array, sequence, mode).')
 ASSUMPTIONS = [
     'gcirc agrees with the vector formula to 1e-6 * d + 1e-9 arcsec: coordinates in degrees are quantised at ulp(360) = 2e-10 arcsec, '
     'so a purely relative bound below ~0.2 mas cannot be met by any float64 implementation (DESIGN.md C18)',
@@ -42,6 +45,8 @@ ASSUMPTIONS = [
     'incl = stripe_to_incl(stripe) evaluated by the function the property names',
     'array arguments (and the coordinate arrays of frames) must be bit-identical after every call and a second call on the '
     'same array must return bit-identical results (otherwise x_to_angles(angles_to_x(a)) == a fails for the caller\'s own a)',
+    'call histories: every call in a sequence of calls on identical data with a different latitude/units keyword must be right for '
+    'its own keyword; sequences of length 2 and 3, preceded by a fixed separator call',
     'nothing is claimed between lattice points',
 ]
 
@@ -546,6 +551,162 @@ def _munu_lattice(T):
     return _lat_cache[T]
 
 
+# ------------------------------------------------------------------------------------------ call histories
+# Consecutive calls on identical data with a different keyword (latitude / units): every result must be right for ITS
+# OWN convention, whatever was called before.  A fixed separator call precedes every history so that any module-level
+# state left by earlier histories is the same in every process (determinism of the shard digests).
+SEP_ANGLES = np.array([[12.5, 33.0], [200.0, 71.0]])
+SEP_VECS = np.array([[0.6, 0.0, 0.8], [0.0, -1.0, 0.0]])
+
+
+def sequences(menu, lengths, distinct=False):
+    out = []
+    for n in lengths:
+        for seq in (itertools.permutations(menu, n) if distinct else itertools.product(menu, repeat=n)):
+            out.append(list(seq))
+    return out
+
+
+def _hist_sig(func, kw, k, seq, matches_prev):
+    if k > 0 and seq[k - 1] != seq[k] and matches_prev:
+        return '%s:call-history:returns-the-result-for-the-previous-call\'s-%s' % (func, kw)
+    return '%s:call-history:wrong-result-for-its-own-%s' % (func, kw)
+
+
+def hist_angles_to_x(A, seq, same):
+    """A: (n,2) angles valid in both conventions (second column in [0, 90])."""
+    import pydl.pydlutils.mangle as mng
+    A = np.asarray(A, dtype=np.float64)
+    mng.angles_to_x(SEP_ANGLES.copy(), latitude=False)
+    W = A.copy()
+    ora = {lat: vec(A[:, 0], A[:, 1] if lat else 90.0 - A[:, 1]) for lat in (False, True)}
+    out = []
+    for k, lat in enumerate(seq):
+        X = np.asarray(mng.angles_to_x(W if same else A.copy(), latitude=lat), dtype=np.float64)
+        if X.shape != (len(A), 3):
+            out.append(('angles_to_x:call-history:result-shape', 'call %d: shape %s' % (k + 1, X.shape)))
+            continue
+        bad = ~(sep(ora[lat], X.astype(LD)).astype(np.float64) <= 5 * FLOOR)
+        if bad.any():
+            prev = bool((sep(ora[not lat], X.astype(LD)).astype(np.float64)[bad] <= 5 * FLOOR).all())
+            out.append((_hist_sig('angles_to_x', 'latitude', k, seq, prev),
+                        'call %d of latitude=%s (%s): angles %s -> %s' % (k + 1, seq, 'same array' if same else 'equal copies',
+                                                                         A[bad][0].tolist(), X[bad][0].tolist())))
+    return out
+
+
+def hist_x_to_angles(A, seq, same):
+    """The unit vectors of the directions A (RA/Dec) are converted back under changing conventions."""
+    import pydl.pydlutils.mangle as mng
+    A = np.asarray(A, dtype=np.float64)
+    V = vec(A[:, 0], A[:, 1])
+    X0 = V.astype(np.float64)
+    V = X0.astype(LD)
+    mng.x_to_angles(SEP_VECS.copy(), latitude=False)
+    W = X0.copy()
+    out = []
+    tol = 5 * FLOOR + cond(A[:, 1])
+
+    def direction(B, lat):
+        return vec(B[:, 0], B[:, 1] if lat else 90.0 - B[:, 1])
+    for k, lat in enumerate(seq):
+        B = np.asarray(mng.x_to_angles(W if same else X0.copy(), latitude=lat), dtype=np.float64)
+        if B.shape != (len(A), 2):
+            out.append(('x_to_angles:call-history:result-shape', 'call %d: shape %s' % (k + 1, B.shape)))
+            continue
+        bad = ~(sep(V, direction(B, lat)).astype(np.float64) <= tol)
+        if bad.any():
+            prev = bool((sep(V, direction(B, not lat)).astype(np.float64)[bad] <= tol[bad]).all())
+            out.append((_hist_sig('x_to_angles', 'latitude', k, seq, prev),
+                        'call %d of latitude=%s (%s): vector %s -> %s' % (k + 1, seq, 'same array' if same else 'equal copies',
+                                                                         X0[bad][0].tolist(), B[bad][0].tolist())))
+    return out
+
+
+def hist_gcirc(C, seq, same, form):
+    """C: (n,4) numbers (a1, d1, a2, d2) that are valid coordinates in all three unit conventions."""
+    from pydl.goddard.astro import gcirc
+    C = np.asarray(C, dtype=np.float64)
+    gcirc(np.array([0.25]), np.array([0.5]), np.array([1.25]), np.array([-0.5]), units=2)
+    W = [C[:, i].copy() for i in range(4)]
+    out = []
+    truth = {}
+    for un in (0, 1, 2):
+        scale = 1.0 if un == 0 else 1.0 / ARCSEC
+        T = (gcirc_truth(un, C[:, 0], C[:, 1], C[:, 2], C[:, 3]) * LD(scale)).astype(np.float64)
+        truth[un] = (T, REL * T + FLOOR * scale)
+    for k, un in enumerate(seq):
+        if form == 'array':
+            args = W if same else [C[:, i].copy() for i in range(4)]
+            g = np.asarray(gcirc(args[0], args[1], args[2], args[3], units=un), dtype=np.float64)
+        else:
+            g = np.array([gcirc(float(r[0]), float(r[1]), float(r[2]), float(r[3]), units=un) for r in C], dtype=np.float64)
+        if g.shape != (len(C),):
+            out.append(('gcirc:call-history:result-shape', 'call %d: shape %s' % (k + 1, g.shape)))
+            continue
+        T, tol = truth[un]
+        bad = ~(np.abs(g - T) <= tol)
+        if bad.any():
+            prev = False
+            if k > 0:
+                Tp, tolp = truth[seq[k - 1]]
+                prev = bool((np.abs(g - Tp)[bad] <= tolp[bad]).all())
+            out.append((_hist_sig('gcirc', 'units', k, seq, prev),
+                        'call %d of units=%s (%s, %s): %s -> %r, vector formula %r'
+                        % (k + 1, seq, form, 'same arrays' if same else 'equal copies', C[bad][0].tolist(),
+                           float(g[bad][0]), float(T[bad][0]))))
+    return out
+
+
+def history_arrays(T):
+    """Angle arrays valid in both conventions (one per longitude), and coordinate arrays valid in all unit conventions."""
+    nphi, nth = (72, 19) if T else (24, 7)
+    ang = []
+    for i in range(nphi + 1):
+        phi = 360.0 * i / nphi
+        ang.append([[phi, 90.0 * j / (nth - 1)] for j in range(nth)])
+    ang.append([[p, (10.0 ** k) * 1e-6 / 3600.0] for p in (7.0, 233.0) for k in range(0, 12, 2)])
+    ras = [0.0, 0.5, 1.0, 1.5, 2.0, 3.0, 3.5, 4.5, 5.0, 6.0, 6.25] if T else [0.0, 1.0, 2.5, 4.5, 6.25]
+    decs = [-1.5, -1.0, -0.5, 0.0, 0.25, 1.0, 1.5]
+    steps = [(1e-9, 5e-10), (0.001, -0.0005), (0.3, -0.2), (1.0, 0.7), (3.0, 0.1)]
+    co = []
+    for ra in ras:
+        rows = []
+        for dec in decs:
+            for da, dd in steps:
+                rows.append([ra, dec, min(ra + da, 6.28), max(-1.57, min(1.57, dec + dd))])
+        co.append(rows)
+    return ang, co
+
+
+def run_history(acc, task):
+    ang, co = history_arrays(task['T'])
+    what = task['what']
+
+    def emit(keyd, nontrivial, label, viol, case):
+        acc.case(tuple(sorted((k, repr(v)) for k, v in keyd.items())), nontrivial,
+                 label if not viol else 'bad:' + viol[0][0], sample=None if acc.samples else keyd)
+        for sig, msg in viol:
+            acc.violation(sig, case, msg)
+    if what in ('angles_to_x', 'x_to_angles'):
+        f = hist_angles_to_x if what == 'angles_to_x' else hist_x_to_angles
+        for ai, A in enumerate(ang):
+            for seq in sequences([False, True], (2, 3)):
+                for same in (True, False):
+                    v = f(A, seq, same)
+                    emit({'h': what, 'array': ai, 'seq': seq, 'same': same}, len(set(seq)) > 1,
+                         'ok:%s:history:%s' % (what, 'mixed' if len(set(seq)) > 1 else 'one-convention'), v,
+                         {'layer': 'history', 'what': what, 'a': A, 'seq': seq, 'same': same})
+    else:
+        for ci, C in enumerate(co):
+            for seq in sequences([0, 1, 2], (2, 3), distinct=True):
+                for same, form in ((True, 'array'), (False, 'array'), (False, 'scalar')):
+                    v = hist_gcirc(C, seq, same, form)
+                    emit({'h': 'gcirc', 'array': ci, 'seq': seq, 'same': same, 'form': form}, True,
+                         'ok:gcirc:history:%s' % form, v,
+                         {'layer': 'history', 'what': 'gcirc', 'c': C, 'seq': seq, 'same': same, 'form': form})
+
+
 # ------------------------------------------------------------------------------------------ tasks
 def tasks(tier):
     T = tier == 'thorough'
@@ -556,6 +717,8 @@ def tasks(tier):
     per = 1 if T else 3
     for s0 in range(0, 90, per):
         t.append({'layer': 'munu', 'stripes': list(range(s0, s0 + per)), 'T': T})
+    for what in ('angles_to_x', 'x_to_angles', 'gcirc'):
+        t.append({'layer': 'history', 'what': what, 'T': T})
     return t
 
 
@@ -721,6 +884,8 @@ def run_task(task):
         run_gcirc(acc, task)
     elif layer == 'munu':
         run_munu(acc, task)
+    elif layer == 'history':
+        run_history(acc, task)
     else:
         raise ValueError(layer)
     if not acc.samples:
@@ -731,6 +896,12 @@ def run_task(task):
 # ------------------------------------------------------------------------------------------ replay
 def replay(case):
     layer = case['layer']
+    if layer == 'history':
+        if case['what'] == 'angles_to_x':
+            return hist_angles_to_x(case['a'], case['seq'], case['same'])
+        if case['what'] == 'x_to_angles':
+            return hist_x_to_angles(case['a'], case['seq'], case['same'])
+        return hist_gcirc(case['c'], case['seq'], case['same'], case['form'])
     if layer == 'gcirc':
         p1 = np.array([case['p1']], dtype=np.float64)
         p2 = np.array([case['p2']], dtype=np.float64)
